@@ -33,7 +33,7 @@ PROPS = {
     'C01': P('C01', [('codepair', 10000, 80000), ('lines', 600, 4800), ('inlineops', 7500, 60000), ('link', 10000, 80000), ('entity', 10000, 80000), ('url', 10000, 80000), ('smap', 300, 2400), ('block', 6000, 48000), ('inline', 5000, 40000), ('pipeline', 1500, 12000), ('pipetabs', 1000, 8000), ('html', 6000, 48000), ('blockh', 2500, 20000), ('inlineh', 2500, 20000), ('pipelineh', 1200, 9600)], ('C01', 30000, 240000),
              "oracle: parse->render->xrender under catch_unwind on grammar/spec/mutated/adversarial/malformed documents x configuration sample (subsets, orders, max_nesting); non-trivial = contains a markdown-significant character; distinct by hash of (cfg, source)",
              ["whole-pipeline totality theorem is _partial: mechanism theorems + rule-level correspondence + oracle cover the composition",
-              "hang = wall time beyond 2 s + 1 ms/byte; stack exhaustion is covered by C02"], extra_modules=(('PipelineH', r'panic_inline_only|total|blocks_ok|final|conservative|tables|content_len'), ('InlineH', r'total|fuel|no_panic|progress|conservative|bounds|fires|advances|memo|guard|spec'), ('BlockH', r'total|fuel|noPanic|progress|conservative'), ('Html', r'no_panic|progress|overflow|link_level|tagMatch_spec|tagRest'), 'GenHtml', ('GenTranslated', r'is_odd_match'), 'TotalTabs', 'MemoSafe', 'InlineTotal', 'BlockTotal', ('DocTotal', r'panic_inline_only|parseDoc_blocks_ok'), ('EmphDepthDoc', r'doc_full_depth_bounded'), 'GenC17', 'GenC02', ('Pipeline', r'parseDoc_panic|renderDoc_panic|doc_render_total|spliceNode_panic|sourceposNode_total'), ('Block', r'progress|tokenize_spec|ruleAt'), ('Inline', r'progress|fuel|contracts'),)),
+              "hang = wall time beyond 2 s + 1 ms/byte; stack exhaustion is covered by C02"], extra_modules=('InlineHWindow', ('PipelineH', r'panic_inline_only|total|blocks_ok|final|conservative|tables|content_len'), ('InlineH', r'total|fuel|no_panic|progress|conservative|bounds|fires|advances|memo|guard|spec'), ('BlockH', r'total|fuel|noPanic|progress|conservative'), ('Html', r'no_panic|progress|overflow|link_level|tagMatch_spec|tagRest'), 'GenHtml', ('GenTranslated', r'is_odd_match'), 'TotalTabs', 'MemoSafe', 'InlineTotal', 'BlockTotal', ('DocTotal', r'panic_inline_only|parseDoc_blocks_ok'), ('EmphDepthDoc', r'doc_full_depth_bounded'), 'GenC17', 'GenC02', ('Pipeline', r'parseDoc_panic|renderDoc_panic|doc_render_total|spliceNode_panic|sourceposNode_total'), ('Block', r'progress|tokenize_spec|ruleAt'), ('Inline', r'progress|fuel|contracts'),)),
     'C02': P('C02', [('nest', 4500, 36000), ('block', 3000, 24000), ('inline', 2500, 20000), ('pipeline', 1500, 12000)], ('C02', 3000, 20000),
              "oracle: 16 nesting families x sizes up to the budget x max_nesting in {0,1,3,10,100}; recursion gauge (hook) and tree depth compared with 4*max_nesting+16; non-trivial = size >= 150",
              ["actual stack exhaustion is a runtime fact; the model bounds frames and depth, the oracle observes the gauge on a 3 GiB-stack thread"], extra_modules=('EmphDepth', 'EmphDepthDoc', 'C02Doc', 'GenC02',)),
@@ -45,7 +45,7 @@ PROPS = {
              ["browser behaviour is modelled by WHATWG URL pre-processing (strip C0/space at the ends, drop TAB/LF/CR) + ASCII-case-insensitive scheme"], extra_modules=('GenC17', ('LinksDoc', r'doc_urls_safe|doc_href|doc_link_render|parseDoc_every_kind|parseBlocks_refs_good|reference_step|tokenize_refs'), ('Inline', r'pipeline|fromPipeline'), 'HtmlDecode', 'HrefConverse', 'HrefNodup')),
     'C05': P('C05', [('inlineops', 10000, 80000), ('block', 6000, 48000), ('inline', 5000, 40000), ('pipeline', 1500, 12000), ('pipetabs', 1500, 12000), ('pipelineh', 1200, 9600)], ('C05', 30000, 240000),
              "oracle: RangesOk on every parsed tree (root covers input, boundaries, nesting, sibling order, text/markup fidelity) for all generators x configurations with the paragraph rule; non-trivial = tree with more than 3 nodes",
-             ["whole-tree induction is _partial (Layer 3); covered by the oracle"], extra_modules=(('PipelineH', r'range'), 'C05Tabs', 'C05Rest', 'C05Inline', 'C05Doc', ('Inline', r'ordered|translate'),)),
+             ["whole-tree induction is _partial (Layer 3); covered by the oracle"], extra_modules=(('InlineH', r'ranges|ordered'), ('PipelineH', r'range'), 'C05Tabs', 'C05Rest', 'C05Inline', 'C05Doc', ('Inline', r'ordered|translate'),)),
     'C06': P('C06', [('block', 6000, 48000), ('lines', 900, 7200)], ('C06', 15000, 120000),
              "oracle: both metamorphic relations on all tab-free spec inputs (with and without html) and generated/mutated tab-free documents; tree equality modulo the computed shift for the quote relation",
              ["list relation: every line (blank ones included) indented by the marker width, D contains a non-blank line"], extra_modules=('C06ListBlank', 'C06List', ('Block', r'bqScan|tableOk|tokenize_spec'),)),
